@@ -55,6 +55,8 @@ def run(ctx):
         e, blk, focus = refgen.mark_focus(P, pr)
         sel = []
         for r in focus:
+            if quick and r["kind"] in ("Int", "Float", "Str", "Var") and r is not e and not (r["ctx"] and r["ctx"][-1][1] == "callee"):
+                continue        # quick: leaves other than E itself and callees are left to the thorough tier
             role, block = refgen.ctx_class(r)
             sel.append({"span": (r["start"], r["end"]), "what": r["kind"], "role": role, "block": block,
                         "value_expr": refgen.value_expr(r["node"]), "callee": r["kind"] == "Var" and bool(r["ctx"]) and r["ctx"][-1][1] == "callee"})
@@ -114,7 +116,8 @@ def run(ctx):
                     ctx.violation(f"add_type_annotation: {kind}: result is not the original plus one insertion", {"src": U["src"], "offset": off, "produced": r["ok"]})
                     continue
                 ctx.outcome(f"add_type_annotation:produced ({kind})")
-                cases.append((U, "add_type_annotation", f"add_type_annotation: {kind}, annotation `{ins.strip()}`", r["ok"], {"offset": off, "kind": kind, "annotation": ins}))
+                coarse = "let name" if kind.startswith("let") else kind
+                cases.append((U, "add_type_annotation", f"add_type_annotation: {coarse}, annotation `{ins.strip()}`", r["ok"], {"offset": off, "kind": kind, "annotation": ins}))
     texts = {}
     for U, tool, cls, new, s in cases:
         texts.setdefault(new, None)
@@ -168,7 +171,9 @@ def run(ctx):
             cmd = f"garden reftest-wrap-in-dbg <file> {s['span'][0]} {s['span'][1]}"
         else:
             cmd = f"garden reftest-add-type-annotation <file> {s['offset']} {s['offset']}"
-        ctx.violation(f"{cls}: {d}", detail, cli_cmd=cmd + " > out.gdn; garden check out.gdn; garden run out.gdn")
+        ut = refgen.unbound_type(d)
+        sig = f"{tool}: the emitted annotation mentions the non-existent type `{ut}`" if ut and tool == "add_type_annotation" else f"{cls}: {d}"
+        ctx.violation(sig, detail, cli_cmd=cmd + " > out.gdn; garden check out.gdn; garden run out.gdn")
         ctx.outcome(f"{tool}:{d.split(':')[0]}")
     # CLI confirmation (up to 12)
     for sig, v in list(ctx.violations.items())[:12]:
